@@ -138,4 +138,101 @@ theorem bodyCmp_swap : ∀ a b : IExp, (bodyCmp a b).swap = bodyCmp b a := by
   | sub u v _ _ => intro b; cases b <;> simp only [bodyCmp, natCompare_swap]
   | neg u _ => intro b; cases b <;> simp only [bodyCmp, natCompare_swap]
 
+theorem ordThen_eq_eq {a b : Ordering} : ordThen a b = .eq ↔ a = .eq ∧ b = .eq := by
+  cases a <;> cases b <;> simp [ordThen]
+
+theorem binCmp_eq : ∀ (f n m : Nat), n < f → binCmp f n m = .eq → n = m := by
+  intro f
+  induction f with
+  | zero => intro n m h; omega
+  | succ f ih =>
+    intro n m h he
+    simp only [binCmp] at he
+    by_cases h1 : n < 2
+    · simp only [h1, decide_true, Bool.true_or, if_true, Nat.compare_eq_eq] at he; exact he
+    · by_cases h2 : m < 2
+      · simp only [h2, decide_true, Bool.or_true, if_true, Nat.compare_eq_eq] at he; exact he
+      · simp only [h1, h2, decide_false, Bool.or_false, Bool.false_eq_true, if_false] at he
+        cases hc : compare (n % 2) (m % 2) with
+        | lt => rw [hc] at he; cases he
+        | gt => rw [hc] at he; cases he
+        | eq =>
+          rw [hc] at he
+          have hd := Nat.compare_eq_eq.1 hc
+          have := ih (n / 2) (m / 2) (by omega) he
+          omega
+
+theorem numCmp_eq (n m : Nat) (h : numCmp n m = .eq) : n = m := by
+  unfold numCmp at h
+  by_cases hs : numSize n = numSize m
+  · rw [if_neg (show ¬ (numSize n ≠ numSize m) from fun h => h hs)] at h
+    by_cases hb : (decide (n < 2) && decide (m < 2)) = true
+    · rw [if_pos hb, Nat.compare_eq_eq] at h; exact h.symm
+    · rw [if_neg hb] at h; exact binCmp_eq (n + 1) n m (by omega) h
+  · rw [if_pos (show numSize n ≠ numSize m from hs), Nat.compare_eq_eq] at h; exact absurd h hs
+
+/-- integer monomial bodies: `x ^ e` with an atomic base, and products of bodies -/
+def isTreeI : IExp → Bool
+  | .pow (.atom _ _) _ => true
+  | .mul a b => isTreeI a && isTreeI b
+  | _ => false
+
+theorem baseCmp_atom_eq (i s j s' : Nat) (h : baseCmp (.atom i s) (.atom j s') = .eq) :
+    IExp.atom i s = IExp.atom j s' := by
+  simp only [baseCmp, ordThen_eq_eq, Nat.compare_eq_eq] at h
+  rw [h.1, h.2]
+
+/-- `fast_compare` answers `eq` only on identical bodies. -/
+theorem bodyCmp_eq : ∀ a b : IExp, isTreeI a = true → isTreeI b = true → bodyCmp a b = .eq → a = b := by
+  intro a
+  induction a with
+  | mul x y ihx ihy =>
+    intro b ha hb h
+    simp only [isTreeI, Bool.and_eq_true] at ha
+    cases b with
+    | mul x' y' =>
+      simp only [isTreeI, Bool.and_eq_true] at hb
+      simp only [bodyCmp] at h
+      split at h
+      · simp only [Nat.compare_eq_eq] at h; omega
+      · simp only [ordThen_eq_eq] at h
+        rw [ihx x' ha.1 hb.1 h.2.1, ihy y' ha.2 hb.2 h.2.2]
+    | pow b e =>
+      simp only [bodyCmp] at h
+      split at h
+      · simp only [Nat.compare_eq_eq] at h; omega
+      · simp only [ordThen_eq_eq] at h; cases h.2
+    | _ => simp [isTreeI] at hb
+  | pow b e _ =>
+    intro c ha hc h
+    cases c with
+    | mul x y =>
+      simp only [bodyCmp] at h
+      split at h
+      · simp only [Nat.compare_eq_eq] at h; omega
+      · simp only [ordThen_eq_eq] at h; cases h.2
+    | pow b' e' =>
+      simp only [bodyCmp] at h
+      split at h
+      · simp only [Nat.compare_eq_eq] at h; omega
+      · simp only [ordThen_eq_eq] at h
+        cases b with
+        | atom i s =>
+          cases b' with
+          | atom j s' => rw [baseCmp_atom_eq i s j s' h.1, numCmp_eq e e' h.2]
+          | _ => simp [isTreeI] at hc
+        | _ => simp [isTreeI] at ha
+    | _ => simp [isTreeI] at hc
+  | atom i s => intro b ha; simp [isTreeI] at ha
+  | num z => intro b ha; simp [isTreeI] at ha
+  | add u v _ _ => intro b ha; simp [isTreeI] at ha
+  | sub u v _ _ => intro b ha; simp [isTreeI] at ha
+  | neg u _ => intro b ha; simp [isTreeI] at ha
+
+theorem bodyCmp_gt_iff (a b : IExp) : bodyCmp a b = .gt ↔ bodyCmp b a = .lt := by
+  rw [← bodyCmp_swap a b]; cases bodyCmp a b <;> simp [Ordering.swap]
+
+theorem bodyCmp_lt_iff (a b : IExp) : bodyCmp a b = .lt ↔ bodyCmp b a = .gt := by
+  rw [← bodyCmp_swap a b]; cases bodyCmp a b <;> simp [Ordering.swap]
+
 end Holpy.C10.IntN
